@@ -37,12 +37,14 @@ def sh(cmd, cwd, timeout=1800, shared_target=True):
 def demo_cmd(wt):
     demo = os.path.join(wt, "MUTANT", "demo")
     for name in ("run.sh", "run_demo.sh"):
+        if os.environ.get("VERIFY_NO_SCRIPT"):
+            break
         if os.path.exists(os.path.join(demo, name)):
             return f"sh MUTANT/demo/{name}", None
     tests = [f for f in os.listdir(demo) if f.endswith(".rs")]
     if len(tests) == 1:
         name = tests[0][:-3]
-        return (f"mkdir -p tests && cp MUTANT/demo/{tests[0]} tests/ && "
+        return (f"mkdir -p tests && cp -r MUTANT/demo/* tests/ && "
                 f"cargo test --offline --test {name}; rc=$?; "
                 f"rm -rf tests; exit $rc"), None
     return None, "no runnable demonstration found"
